@@ -50,11 +50,13 @@ def phrase(rng):
 # `regex_meta` (labels and other key=value items) mangles them in a way the model reproduces (F36)
 QUOTEY = ['beam 3.5"', "FOV 5'", '"M42"', "'q'", '', '"', "'", "''", '""', 'a"b', "it's", 'a\'b"c', ' lead', 'trail ',
           ' ', "' '", 'say "hi"', '#x', 'a#b', '"\'', '\'"', ' "x" ', "5' 3\""]
+# braces: harmless characters for CRTF, replacement fields for a careless str.format
+BRACEY = ['H$_{2}$O', '{0}', '{}', '{name}', '}{', '{{', '{', '}', '{0:.3f}', 'a{1}b', '{text}', '{symbol}', '}}', '{0}{1}{2}', '{!r}', 'x{']
 # strings whose effect spills over the neighbouring items (comma, bracket, '='): not modelled, oracle only
 SPILL = ['a, b', 'a [x]', 'a]b', 'a[b', 'x,', '[', ']', "x', color=red", "a, label='z", '[[1deg, 2deg]]', "it's, ok", 'k=v "q"']
 TEXT_OK_EXTRA = ['a, b', 'a]b', 'x,', ']', '3deg]', ', ', "x', y"]       # fine inside text[[…], '…'] (no '[' and no '=')
 TEXT_SPILL = ['a [x]', 'a[b', '[', 'a=b', 'coord=ICRS', '[[1deg, 2deg]]', "x', color=red"]
-QCH = WORDCH + ' ' * 6 + '\'"' * 8 + '_.:;!?-#\t'
+QCH = WORDCH + ' ' * 6 + '\'"' * 8 + '_.:;!?-#\t' + '{}' * 5 + '$'
 
 
 def spills(s):
@@ -71,8 +73,10 @@ def value_string(rng):
     t = rng.random()
     if t < 0.7:
         return phrase(rng), False
-    if t < 0.8:
+    if t < 0.78:
         return rng.choice(QUOTEY), False
+    if t < 0.86:
+        return rng.choice(BRACEY), False
     if t < 0.96:
         return word(rng, rng.randint(0, 8), QCH), False
     return rng.choice(SPILL), True
@@ -83,8 +87,10 @@ def text_string(rng):
     t = rng.random()
     if t < 0.5:
         return phrase(rng), False
-    if t < 0.65:
+    if t < 0.62:
         return rng.choice(QUOTEY + TEXT_OK_EXTRA), False
+    if t < 0.72:
+        return rng.choice(BRACEY), False
     if t < 0.96:
         return word(rng, rng.randint(0, 8), QCH + ',]'), False
     return rng.choice(TEXT_SPILL), True
@@ -385,9 +391,9 @@ def gen_meta(rng, cls, sky):
     if rng.random() < 0.25:
         meta.append(['type', rng.choice(['ann', 'ann', 'reg'])])
     if rng.random() < 0.25:
-        meta.append(['frame', rng.choice(['BARY', 'LSRK', 'TOPO', 'bary'])])
+        meta.append(['frame', rng.choice(['BARY', 'LSRK', 'TOPO', 'bary']) if rng.random() < 0.9 else value_string(rng)[0]])
     if rng.random() < 0.15:
-        meta.append(['veltype', rng.choice(['RADIO', 'OPTICAL', 'Z'])])
+        meta.append(['veltype', rng.choice(['RADIO', 'OPTICAL', 'Z']) if rng.random() < 0.9 else value_string(rng)[0]])
     if rng.random() < 0.12:
         meta.append(['restfreq', rng.choice(['1.42GHz', '115.271GHz', '1420405751.786Hz'])])
     rq = False
@@ -410,7 +416,7 @@ def gen_meta(rng, cls, sky):
     if rng.random() < 0.3:
         vis.append(['linewidth', rng.choice([1, 2, 3, '2'])])
     if rng.random() < 0.15:
-        vis.append(['linestyle', rng.choice(['-', '--', ':', '-.'])])
+        vis.append(['linestyle', rng.choice(['-', '--', ':', '-.']) if rng.random() < 0.9 else value_string(rng)[0]])
     if rng.random() < 0.15:
         vis.append(['symsize', rng.choice([1, 2, 5])])
     if rng.random() < 0.1:
@@ -421,11 +427,11 @@ def gen_meta(rng, cls, sky):
     if rng.random() < 0.12:
         vis.append(['fontsize', rng.choice([8, 10, 12, '11'])])
     if rng.random() < 0.1:
-        vis.append(['fontstyle', rng.choice(['bold', 'normal', 'italic'])])
+        vis.append(['fontstyle', rng.choice(['bold', 'normal', 'italic']) if rng.random() < 0.9 else value_string(rng)[0]])
     if rng.random() < 0.1:
         vis.append(['usetex', rng.choice([True, False, 'false'])])
     if rng.random() < 0.1:
-        vis.append(['labelpos', rng.choice(['top', 'bottom', 'left', 'right'])])
+        vis.append(['labelpos', rng.choice(['top', 'bottom', 'left', 'right']) if rng.random() < 0.9 else value_string(rng)[0]])
     if rng.random() < 0.05:
         vis.append(['labelcolor', rng.choice(['green', 'red'])])
     if rng.random() < 0.05:
@@ -851,9 +857,10 @@ def ref_coord_deg(c):
     if c['t'] == 'dec':
         v = dec_val(c['d'])
         return v * 180 / RAD if c['u'] == 'rad' else v
-    v = c['a'] + Fraction(c['b'], 60) + dec_val(c['s']) / 3600
+    # the sign is the sign CHARACTER, whatever the fields are (-00.30.00.0 is minus half a degree)
+    v = c['a'] + Fraction(c['b'], 60) + (dec_val(c['s']) / 3600 if 's' in c else 0)
     v = -v if c['neg'] else v
-    return v * 15 if c['t'] in ('hms', 'colon') else v
+    return v * 15 if c['t'] in ('hms', 'colon', 'hm') else v
 
 
 def ref_lens(b):
@@ -1263,8 +1270,13 @@ def r_coord(c):
     t = c['t']
     if t == 'dec':
         return r_dec(c['d']) + {'deg': 'deg', 'rad': 'rad', 'pix': 'pix', 'bare': ''}[c['u']]
-    sg = '-' if c['neg'] else ''
-    a, b, s = c['a'], c['b'], r_dec(c['s'])
+    sg = '-' if c['neg'] else ('+' if c.get('plus') else '')
+    a, b = c['a'], c['b']
+    if t == 'hm':
+        return f'{sg}{a}h{b}m'
+    if t == 'dm':
+        return f'{sg}{a}d{b}m'
+    s = r_dec(c['s'])
     if t == 'hms':
         return f'{sg}{pad(a, 2)}h{pad(b, 2)}m{s}s'
     if t == 'dms':
@@ -1367,32 +1379,56 @@ def g_dec(rng, lo, hi, maxscale=7):
     return [bool(x < 0 and mant > 0), str(mant), scale]
 
 
+def g_sexa(rng, kinds, amax, neg_ok):
+    """a sexagesimal token; zero leading fields, negative values with a zero first field (-00.30.00.0, -00:00:01,
+    -0d30m) and explicit '+' signs are frequent on purpose."""
+    t = rng.choice(kinds)
+    a = 0 if rng.random() < 0.3 else rng.randint(0, amax)
+    b = 0 if rng.random() < 0.25 else rng.randint(0, 59)
+    sec = g_dec(rng, 0, 59.9, rng.choice([0, 0, 1, 2, 4]))
+    if rng.random() < 0.15:
+        sec = [False, '0', sec[2]]
+    neg = neg_ok and rng.random() < 0.5
+    if neg and a == 0 and b == 0 and int(sec[1]) == 0 and t not in ('hm', 'dm'):
+        sec = [False, str(5 * 10 ** max(0, sec[2] - 1) or 1), sec[2]] if sec[2] else [False, '1', 0]
+    if neg and a == 0 and b == 0 and t in ('hm', 'dm'):
+        b = rng.randint(1, 59)
+    c = {'t': t, 'neg': neg, 'a': a, 'b': b}
+    if t not in ('hm', 'dm'):
+        c['s'] = sec
+    if not neg and rng.random() < 0.2:
+        c['plus'] = True
+    return c
+
+
 def g_lon(rng, pixel):
     if pixel:
         return {'t': 'dec', 'd': g_dec(rng, -50, 500, 4), 'u': 'pix'}
     t = rng.random()
-    if t < 0.45:
+    if t < 0.4:
         return {'t': 'dec', 'd': g_dec(rng, 0, 359.9), 'u': 'deg'}
-    if t < 0.55:
+    if t < 0.5:
         return {'t': 'dec', 'd': g_dec(rng, 0, 359.9), 'u': 'bare'}
-    if t < 0.65:
+    if t < 0.6:
         return {'t': 'dec', 'd': g_dec(rng, 0, 6.28, 9), 'u': 'rad'}
-    return {'t': 'hms' if t < 0.85 else 'colon', 'neg': False, 'a': rng.randint(0, 23), 'b': rng.randint(0, 59),
-            's': g_dec(rng, 0, 59.9, 4)}
+    if t < 0.9:
+        # hours; a negative longitude is legal (it is wrapped: -00:30:00 is 23h30m)
+        return g_sexa(rng, ['hms', 'hms', 'colon', 'colon', 'hm'], 23, rng.random() < 0.25)
+    # a longitude in sexagesimal DEGREES (dd.mm.ss.sss / ddXmmXss) is legal too
+    return g_sexa(rng, ['dms', 'dots', 'dm'], 359, rng.random() < 0.4)
 
 
 def g_lat(rng, pixel):
     if pixel:
         return {'t': 'dec', 'd': g_dec(rng, -50, 500, 4), 'u': 'pix'}
     t = rng.random()
-    if t < 0.45:
+    if t < 0.4:
         return {'t': 'dec', 'd': g_dec(rng, -85, 85), 'u': 'deg'}
-    if t < 0.55:
+    if t < 0.5:
         return {'t': 'dec', 'd': g_dec(rng, -85, 85), 'u': 'bare'}
-    if t < 0.65:
+    if t < 0.6:
         return {'t': 'dec', 'd': g_dec(rng, -1.4, 1.4, 9), 'u': 'rad'}
-    return {'t': 'dms' if t < 0.85 else 'dots', 'neg': rng.random() < 0.5, 'a': rng.randint(0, 84), 'b': rng.randint(0, 59),
-            's': g_dec(rng, 0, 59.9, 4)}
+    return g_sexa(rng, ['dms', 'dms', 'dots', 'dots', 'dm'], 84, True)
 
 
 def g_pt(rng, pixel):
